@@ -1,7 +1,7 @@
 #!/bin/bash
 # run every registered check of a tier, one after the other; summary lines only
 TIER="${1:-quick}"
-cd /verif
+cd "$(dirname "$0")/.."
 for p in $(python3 -c "import json;print(' '.join(c['property_id'] for c in json.load(open('MANIFEST.json'))['checks']))") $2; do
   s=$(date +%s)
   out=$(./check $p $TIER 2>&1); rc=$?
